@@ -17,6 +17,7 @@ Notation sorted := (@Vector.sorted RNum).
 Notation scale := (@Vector.scale RNum).
 Notation merge := (@Vector.merge RNum).
 Notation merge_w := (@Vector.merge_w RNum).
+Notation keys := (@Vector.keys RNum).
 
 (* ---------- environments: the values of the elementary inputs ---------- *)
 Definition env := key -> R.
@@ -42,6 +43,7 @@ Definition comp (o : ureal) (k : key) : R := get0 (uc o) k + get0 (dc o) k.
 
 Section Den.
   Variable U : key -> R.       (* standard uncertainty of each elementary input *)
+  Variable I : key -> bool.    (* was the input declared independent *)
   Variable e0 : env.           (* the input values *)
 
   (* o denotes the function F of the inputs *)
@@ -49,6 +51,8 @@ Section Den.
     den_val : ux o = F e0;
     den_su : sorted (uc o);
     den_sd : sorted (dc o);
+    den_ku : forall k, In k (keys (uc o)) -> I k = true;
+    den_kd : forall k, In k (keys (dc o)) -> I k = false;
     den_der : forall k, exists D,
         is_derive (fun t => F (upd e0 k t)) (e0 k) D /\ comp o k = U k * D }.
 
@@ -85,38 +89,42 @@ Section Den.
   Lemma get0_single k k' (u : R) : get0 [(k, u)] k' = if keqb k' k then u else 0.
   Proof. unfold Vector.get0; simpl. destruct (keqb k' k); reflexivity. Qed.
 
-  Lemma den_leaf_indep k x nd : e0 k = x ->
+  Lemma den_leaf_indep k x nd : e0 k = x -> I k = true ->
     Den (mkU x [(k, U k)] [] [] nd) (fun e => e k).
   Proof.
-    intros Hx. split.
+    intros Hx HI. split.
     - simpl; auto.
     - apply sorted_single.
     - simpl; auto.
+    - simpl; intros k' [<-|[]]; auto.
+    - simpl; intros k' [].
     - intros k'. destruct (den_leaf_aux k k') as [D [H1 H2]]. exists D; split; auto.
       unfold comp; cbn [uc dc]. rewrite get0_single, get0_nil. rewrite Rplus_0_r. exact H2.
   Qed.
 
-  Lemma den_leaf_dep k x nd : e0 k = x ->
+  Lemma den_leaf_dep k x nd : e0 k = x -> I k = false ->
     Den (mkU x [] [(k, U k)] [] nd) (fun e => e k).
   Proof.
-    intros Hx. split.
+    intros Hx HI. split.
     - simpl; auto.
     - simpl; auto.
     - apply sorted_single.
+    - simpl; intros k' [].
+    - simpl; intros k' [<-|[]]; auto.
     - intros k'. destruct (den_leaf_aux k k') as [D [H1 H2]]. exists D; split; auto.
       unfold comp; cbn [uc dc]. rewrite get0_single, get0_nil. rewrite Rplus_0_l. exact H2.
   Qed.
 
   Lemma den_const v i nd : Den (mkU v [] [] i nd) (fun _ => v).
   Proof.
-    split; simpl; auto. intros k. exists 0. split.
+    split; simpl; auto; try (intros k []). intros k. exists 0. split.
     - auto_derive; auto.
     - unfold comp; simpl. rewrite !get0_nil. ring.
   Qed.
 
   Lemma den_ext o F G : (forall e, F e = G e) -> Den o F -> Den o G.
   Proof.
-    intros HE [Hv Hu Hd Hder]. split; auto.
+    intros HE [Hv Hu Hd Hku Hkd Hder]. split; auto.
     - rewrite <- HE; auto.
     - intros k. destruct (Hder k) as [D [H1 H2]]. exists D; split; auto.
       eapply is_derive_ext; [|exact H1]. intros t; apply HE.
@@ -127,9 +135,11 @@ Section Den.
     Den a Fa -> y = f (Fa e0) -> is_derive f (Fa e0) w ->
     Den (mkU y (scale (uc a) w) (scale (dc a) w) i NoNode) (fun e => f (Fa e)).
   Proof.
-    intros [Hv Hu Hd Hder] Hy Hf. split; simpl; auto.
+    intros [Hv Hu Hd Hku Hkd Hder] Hy Hf. split; simpl; auto.
     - apply sorted_scale; auto.
     - apply sorted_scale; auto.
+    - intros k; unfold Vector.scale; rewrite keys_vmap; auto.
+    - intros k; unfold Vector.scale; rewrite keys_vmap; auto.
     - intros k. destruct (Hder k) as [D [H1 H2]]. exists (D * w). split.
       + apply (is_derive_comp f (fun t => Fa (upd e0 k t)) (e0 k) w D); auto.
         rewrite upd_same. exact Hf.
@@ -150,9 +160,11 @@ Section Den.
     Den (mkU y (merge_w (uc a) wl (uc b) wr) (merge_w (dc a) wl (dc b) wr) i NoNode)
         (fun e => f (Fa e) (Fb e)).
   Proof.
-    intros [Hva Hua Hda Hdera] [Hvb Hub Hdb Hderb] Hy Hf. split; simpl; auto.
+    intros [Hva Hua Hda Hkua Hkda Hdera] [Hvb Hub Hdb Hkub Hkdb Hderb] Hy Hf. split; simpl; auto.
     - apply sorted_merge_w; auto.
     - apply sorted_merge_w; auto.
+    - intros k Hin; apply keys_merge_w in Hin; destruct Hin; auto.
+    - intros k Hin; apply keys_merge_w in Hin; destruct Hin; auto.
     - intros k. destruct (Hdera k) as [Da [A1 A2]]. destruct (Hderb k) as [Db [B1 B2]].
       exists (wl * Da + wr * Db). split.
       + apply (Hf (fun t => Fa (upd e0 k t)) (fun t => Fb (upd e0 k t))); auto;
@@ -168,9 +180,11 @@ Section Den.
     Den (mkU y (merge (uc a) (uc b)) (merge (dc a) (dc b)) i NoNode)
         (fun e => f (Fa e) (Fb e)).
   Proof.
-    intros [Hva Hua Hda Hdera] [Hvb Hub Hdb Hderb] Hy Hf. split; simpl; auto.
+    intros [Hva Hua Hda Hkua Hkda Hdera] [Hvb Hub Hdb Hkub Hkdb Hderb] Hy Hf. split; simpl; auto.
     - apply sorted_merge; auto.
     - apply sorted_merge; auto.
+    - intros k Hin; apply (keys_mloop RNum) in Hin; destruct Hin; auto.
+    - intros k Hin; apply (keys_mloop RNum) in Hin; destruct Hin; auto.
     - intros k. destruct (Hdera k) as [Da [A1 A2]]. destruct (Hderb k) as [Db [B1 B2]].
       exists (1 * Da + 1 * Db). split.
       + apply (Hf (fun t => Fa (upd e0 k t)) (fun t => Fb (upd e0 k t))); auto;
@@ -183,7 +197,7 @@ Section Den.
 
   (* Vector(copy=...) *)
   Lemma den_copy a Fa i : Den a Fa -> Den (mkU (ux a) (uc a) (dc a) i NoNode) Fa.
-  Proof. intros [Hv Hu Hd Hder]. split; auto. Qed.
+  Proof. intros [Hv Hu Hd Hku Hkd Hder]. split; auto. Qed.
 End Den.
 
 (* ---------- the plain real-number meaning of operators and functions ---------- *)
@@ -486,11 +500,12 @@ Notation operand := (Kernel.operand RNum).
 
 Section Main.
   Variable U : key -> R.
+  Variable I : key -> bool.
   Variable e0 : env.
 
   Definition DenOp (o : operand) (F : env -> R) : Prop :=
     match o with
-    | OpdU a => Den U e0 a F
+    | OpdU a => Den U I e0 a F
     | OpdN v => F e0 = v /\ forall k, is_derive (fun t => F (upd e0 k t)) (e0 k) 0
     end.
 
@@ -499,14 +514,14 @@ Section Main.
   Definition compOp (o : operand) (k : key) : R := match o with OpdU a => comp a k | OpdN _ => 0 end.
 
   Lemma DenOp_val o F : DenOp o F -> valOp o = F e0.
-  Proof. destruct o; simpl; [intros [H _ _ _]; auto | intros [H _]; auto]. Qed.
+  Proof. destruct o; simpl; [intros [H _ _ _ _ _]; auto | intros [H _]; auto]. Qed.
 
   Lemma DenOp_der o F k : DenOp o F ->
     exists D, is_derive (fun t => F (upd e0 k t)) (e0 k) D /\ compOp o k = U k * D /\
               (isU o = false -> D = 0).
   Proof.
     destruct o as [a|v]; simpl.
-    - intros [_ _ _ Hd]. destruct (Hd k) as [D [H1 H2]]. exists D. split; [auto|split; [auto|intros E; discriminate E]].
+    - intros [_ _ _ _ _ Hd]. destruct (Hd k) as [D [H1 H2]]. exists D. split; [auto|split; [auto|intros E; discriminate E]].
     - intros [_ Hd]. exists 0. split; [auto|split; [ring|auto]].
   Qed.
 
@@ -514,10 +529,11 @@ Section Main.
     DenOp a Fa -> DenOp b Fb -> y = f (valOp a) (valOp b) ->
     bin_der f (valOp a) (valOp b) wl wr ->
     sorted cu -> sorted cd ->
+    (forall k, In k (keys cu) -> I k = true) -> (forall k, In k (keys cd) -> I k = false) ->
     (forall k, get0 cu k + get0 cd k = wl * compOp a k + wr * compOp b k) ->
-    Den U e0 (mkU y cu cd i nd) (fun e => f (Fa e) (Fb e)).
+    Den U I e0 (mkU y cu cd i nd) (fun e => f (Fa e) (Fb e)).
   Proof.
-    intros Ha Hb Hy Hf Su Sd Hlin.
+    intros Ha Hb Hy Hf Su Sd Ku Kd Hlin.
     pose proof (DenOp_val _ _ Ha) as Va. pose proof (DenOp_val _ _ Hb) as Vb.
     split; simpl; auto.
     - rewrite <- Va, <- Vb; auto.
@@ -532,8 +548,15 @@ Section Main.
   Lemma ureal_eta (a : ureal) : a = mkU (ux a) (uc a) (dc a) (ic a) (unode a).
   Proof. destruct a; reflexivity. Qed.
 
-  Lemma Den_sorted a F : Den U e0 a F -> sorted (uc a) /\ sorted (dc a).
-  Proof. intros [_ H1 H2 _]; auto. Qed.
+  Lemma Den_sorted a F : Den U I e0 a F -> sorted (uc a) /\ sorted (dc a).
+  Proof. intros [_ H1 H2 _ _ _]; auto. Qed.
+
+  Lemma Den_keys a F : Den U I e0 a F ->
+    (forall k, In k (keys (uc a)) -> I k = true) /\ (forall k, In k (keys (dc a)) -> I k = false).
+  Proof. intros [_ _ _ H1 H2 _]; auto. Qed.
+
+  Lemma keys_scale (v : list (key * R)) w : keys (scale v w) = keys v.
+  Proof. unfold Vector.scale; apply keys_vmap. Qed.
 
   Lemma realize_sound f a b oa ob Fa Fb res v o' :
     DenOp a Fa -> DenOp b Fb ->
@@ -549,7 +572,7 @@ Section Main.
       + destruct Hs as [Hlu [Hy [wr [Hbd Hwr]]]].
         destruct a as [a0|]; [|discriminate]. specialize (Ea _ eq_refl); subst oa.
         simpl in Hr. injection Hr as <-. simpl in Ho. injection Ho as <-.
-        simpl. rewrite (ureal_eta a0). simpl in Ha. destruct (Den_sorted _ _ Ha) as [S1 S2].
+        simpl. rewrite (ureal_eta a0). simpl in Ha. destruct (Den_sorted _ _ Ha) as [S1 S2]. destruct (Den_keys _ _ Ha) as [K1 K2].
         apply (den_bin_gen (OpdU a0) b Fa Fb f (ux a0) 1 wr); auto.
         intros k. destruct (DenOp_der _ _ k Hb) as [Db [_ [B2 B3]]]. simpl compOp at 1. unfold comp.
         destruct b as [b0|vb]; simpl in *.
@@ -558,7 +581,7 @@ Section Main.
       + destruct Hs as [Hru [Hy [wl [Hbd Hwl]]]].
         destruct b as [b0|]; [|discriminate]. specialize (Eb _ eq_refl); subst ob.
         simpl in Hr. injection Hr as <-. simpl in Ho. injection Ho as <-.
-        simpl. rewrite (ureal_eta b0). simpl in Hb. destruct (Den_sorted _ _ Hb) as [S1 S2].
+        simpl. rewrite (ureal_eta b0). simpl in Hb. destruct (Den_sorted _ _ Hb) as [S1 S2]. destruct (Den_keys _ _ Hb) as [K1 K2].
         apply (den_bin_gen a (OpdU b0) Fa Fb f (ux b0) wl 1); auto.
         intros k. simpl compOp at 2. unfold comp.
         destruct a as [a0|va]; simpl in *.
@@ -584,21 +607,25 @@ Section Main.
       + destruct Hs as [Hlu [Hy [wr [Hbd Hwr]]]].
         destruct a as [a0|]; [|discriminate]. specialize (Ea _ eq_refl); subst oa.
         simpl in Hr. injection Hr as <-. simpl in Ho. injection Ho as <-.
-        simpl in Ha. destruct (Den_sorted _ _ Ha) as [S1 S2].
+        simpl in Ha. destruct (Den_sorted _ _ Ha) as [S1 S2]. destruct (Den_keys _ _ Ha) as [K1 K2].
         simpl. unfold new_un.
         apply (den_bin_gen (OpdU a0) b Fa Fb f y wt wr); auto.
         * apply sorted_scale; auto.
         * apply sorted_scale; auto.
+        * intros k; rewrite keys_scale; auto.
+        * intros k; rewrite keys_scale; auto.
         * intros k. rewrite !get0_scale. simpl compOp at 1. unfold comp.
           destruct b as [b0|vb]; simpl in *; [rewrite (Hwr eq_refl)|]; ring.
       + destruct Hs as [Hru [Hy [wl [Hbd Hwl]]]].
         destruct b as [b0|]; [|discriminate]. specialize (Eb _ eq_refl); subst ob.
         simpl in Hr. injection Hr as <-. simpl in Ho. injection Ho as <-.
-        simpl in Hb. destruct (Den_sorted _ _ Hb) as [S1 S2].
+        simpl in Hb. destruct (Den_sorted _ _ Hb) as [S1 S2]. destruct (Den_keys _ _ Hb) as [K1 K2].
         simpl. unfold new_un.
         apply (den_bin_gen a (OpdU b0) Fa Fb f y wl wt); auto.
         * apply sorted_scale; auto.
         * apply sorted_scale; auto.
+        * intros k; rewrite keys_scale; auto.
+        * intros k; rewrite keys_scale; auto.
         * intros k. rewrite !get0_scale. simpl compOp at 2. unfold comp.
           destruct a as [a0|va]; simpl in *; [rewrite (Hwl eq_refl)|]; ring.
     - (* OMergeW *)
@@ -607,7 +634,7 @@ Section Main.
       specialize (Ea _ eq_refl); specialize (Eb _ eq_refl); subst oa ob.
       simpl in Hr. injection Hr as <-. simpl in Ho. injection Ho as <-.
       simpl in *. unfold new_un.
-      pose proof (den_val _ _ _ _ Ha) as Va. pose proof (den_val _ _ _ _ Hb) as Vb.
+      pose proof (den_val _ _ _ _ _ Ha) as Va. pose proof (den_val _ _ _ _ _ Hb) as Vb.
       apply den_merge_w; auto; rewrite <- Va, <- Vb; auto.
     - (* OMerge *)
       destruct Hs as [Hlu [Hru [Hy Hbd]]].
@@ -615,18 +642,20 @@ Section Main.
       specialize (Ea _ eq_refl); specialize (Eb _ eq_refl); subst oa ob.
       simpl in Hr. injection Hr as <-. simpl in Ho. injection Ho as <-.
       simpl in *. unfold new_un.
-      pose proof (den_val _ _ _ _ Ha) as Va. pose proof (den_val _ _ _ _ Hb) as Vb.
+      pose proof (den_val _ _ _ _ _ Ha) as Va. pose proof (den_val _ _ _ _ _ Hb) as Vb.
       apply den_merge; auto; rewrite <- Va, <- Vb; auto.
     - (* ONegOf *)
       destruct w; [contradiction|].
       destruct Hs as [Hru [Hy [wl [Hbd Hwl]]]].
       destruct b as [b0|]; [|discriminate]. specialize (Eb _ eq_refl); subst ob.
       simpl in Hr. injection Hr as <-. simpl in Ho. injection Ho as <-.
-      simpl in Hb. destruct (Den_sorted _ _ Hb) as [S1 S2].
+      simpl in Hb. destruct (Den_sorted _ _ Hb) as [S1 S2]. destruct (Den_keys _ _ Hb) as [K1 K2].
       simpl. unfold neg_of, new_un.
       apply (den_bin_gen a (OpdU b0) Fa Fb f (- ux b0) wl (-1)); auto.
       * apply sorted_scale; auto.
       * apply sorted_scale; auto.
+      * intros k; rewrite keys_scale; auto.
+      * intros k; rewrite keys_scale; auto.
       * intros k. rewrite !get0_scale. simpl compOp at 2. unfold comp.
         unfold one; cbn [neg of_Z RNum].
         destruct a as [a0|va]; simpl in *; [rewrite (Hwl eq_refl)|]; ring.
@@ -698,30 +727,31 @@ End Sem.
 (* ---------- C01 + C02: the chain rule for every expression tree ---------- *)
 Section ChainTheorem.
   Variable U : key -> R.
+  Variable I : key -> bool.
   Variable e0 : env.
   Variable s : state.
   Variable Fi : nat -> env -> R.
   Hypothesis inputs_ok :
-    forall i j o c, get_real RNum s i = Ok (j, o, c) -> Den U e0 o (Fi i).
+    forall i j o c, get_real RNum s i = Ok (j, o, c) -> Den U I e0 o (Fi i).
 
-  Lemma denop_num v : DenOp U e0 (OpdN v) (fun _ => v).
+  Lemma denop_num v : DenOp U I e0 (OpdN v) (fun _ => v).
   Proof. simpl; split; auto. intros k. auto_derive; auto. Qed.
 
   Lemma un_case f oa F res v o :
-    un_ok (fun N => g_unop N f) (unop_R f) -> Den U e0 oa F ->
+    un_ok (fun N => g_unop N f) (unop_R f) -> Den U I e0 oa F ->
     g_unop RNum f (ux oa) = Ok res -> realize RNum res oa oa = Ok v ->
-    of_opval RNum v oa oa = Ok o -> DenOp U e0 o (fun en => unop_R f (F en)).
+    of_opval RNum v oa oa = Ok o -> DenOp U I e0 o (fun en => unop_R f (F en)).
   Proof.
     intros Hok Hd Eg Er Ho.
     destruct (Hok _ _ Eg) as [y [w [-> [Hy Hder]]]].
-    apply (realize_sound U e0 (fun a _ => unop_R f a) (@OpdU RNum oa) (@OpdN RNum 0) oa oa
+    apply (realize_sound U I e0 (fun a _ => unop_R f a) (@OpdU RNum oa) (@OpdN RNum 0) oa oa
              F (fun _ => 0) (OScale L y w) v o Hd (denop_num 0));
       [intros ? [=]; auto | intros ? [=] | | exact Er | exact Ho].
     simpl. split; [reflexivity | split; [exact Hy | exists 0; split; [apply un_as_bin; exact Hder | discriminate]]].
   Qed.
 
   Theorem eval_un_sound : forall (e : expr) (o : operand),
-    regular Fi e0 e -> eval_un RNum s e = Ok o -> DenOp U e0 o (sem Fi e).
+    regular Fi e0 e -> eval_un RNum s e = Ok o -> DenOp U I e0 o (sem Fi e).
   Proof.
     induction e as [i|v|f e1 IH1|f e1 IH1 e2 IH2]; intros o Hreg Hev.
     - (* EVar *)
@@ -738,7 +768,7 @@ Section ChainTheorem.
       simpl in Hev.
       destruct (realize RNum res oa oa) as [v|] eqn:Er; [|discriminate]. simpl in Hev.
       pose proof (g_unop_ok f) as Hok.
-      pose proof (den_val _ _ _ _ IH1) as Va.
+      pose proof (den_val _ _ _ _ _ IH1) as Va.
       destruct f; simpl in Hok;
         try (match goal with Hk : un_ok _ (unop_R ?ff) |- _ =>
                exact (un_case ff oa (sem Fi e1) res v o Hk IH1 Eg Er Hev) end).
@@ -746,7 +776,7 @@ Section ChainTheorem.
         simpl in Eg. injection Eg as <-. simpl in Er.
         injection Er as <-. simpl in Hev. injection Hev as <-. simpl.
         unfold new_un. cbn [mul RNum].
-        apply (den_merge_w U e0 oa oa (sem Fi e1) (sem Fi e1) Rmult); auto.
+        apply (den_merge_w U I e0 oa oa (sem Fi e1) (sem Fi e1) Rmult); auto.
         * rewrite Va; reflexivity.
         * rewrite <- Va. apply bd_mul.
       + (* phase *)
@@ -765,21 +795,79 @@ Section ChainTheorem.
       specialize (IH1 _ Hr1 eq_refl). specialize (IH2 _ Hr2 eq_refl).
       simpl in Hev.
       destruct (apply_bin RNum f a b) as [v|] eqn:Ea; [|discriminate]. simpl in Hev.
-      pose proof (DenOp_val _ _ _ _ IH1) as Va. pose proof (DenOp_val _ _ _ _ IH2) as Vb.
+      pose proof (DenOp_val _ _ _ _ _ IH1) as Va. pose proof (DenOp_val _ _ _ _ _ IH2) as Vb.
       rewrite <- Va, <- Vb in Hrb.
       destruct a as [oa|va], b as [ob|vb]; cbn [apply_bin] in Ea.
       + destruct (g_bin_uu RNum f (ux oa) (ux ob)) as [res|] eqn:Eg; cbn [bind] in Ea; [|discriminate].
-        apply (realize_sound U e0 (binop_R f) (@OpdU RNum oa) (@OpdU RNum ob) oa ob _ _ res v o IH1 IH2);
+        apply (realize_sound U I e0 (binop_R f) (@OpdU RNum oa) (@OpdU RNum ob) oa ob _ _ res v o IH1 IH2);
           [intros ? [=]; auto | intros ? [=]; auto | | exact Ea | exact Hev].
         apply g_bin_uu_ok; auto.
       + destruct (g_bin_un RNum f (ux oa) vb) as [res|] eqn:Eg; cbn [bind] in Ea; [|discriminate].
-        apply (realize_sound U e0 (binop_R f) (@OpdU RNum oa) (@OpdN RNum vb) oa oa _ _ res v o IH1 IH2);
+        apply (realize_sound U I e0 (binop_R f) (@OpdU RNum oa) (@OpdN RNum vb) oa oa _ _ res v o IH1 IH2);
           [intros ? [=]; auto | intros ? [=] | | exact Ea | exact Hev].
         apply g_bin_un_ok; auto.
       + destruct (g_bin_nu RNum f va (ux ob)) as [res|] eqn:Eg; cbn [bind] in Ea; [|discriminate].
-        apply (realize_sound U e0 (binop_R f) (@OpdN RNum va) (@OpdU RNum ob) ob ob _ _ res v o IH1 IH2);
+        apply (realize_sound U I e0 (binop_R f) (@OpdN RNum va) (@OpdU RNum ob) ob ob _ _ res v o IH1 IH2);
           [intros ? [=] | intros ? [=]; auto | | exact Ea | exact Hev].
         apply g_bin_nu_ok; auto.
       + discriminate.
   Qed.
 End ChainTheorem.
+
+(* ---------- the link to reporting.sensitivity / reporting.u_component ---------- *)
+Section Reporting.
+  Variable U : key -> R.
+  Variable I : key -> bool.
+  Variable e0 : env.
+  Variable s : state.
+
+  (* U and I are the attributes the state records for its leaves *)
+  Definition attrs_ok : Prop :=
+    forall k lf, assoc (s_leaves s) k = Some lf -> l_u lf = U k /\ l_indep lf = I k.
+
+  Lemma get0_notin (v : list (key * R)) k : ~ In k (keys v) -> get0 v k = 0.
+  Proof. intros H. unfold Vector.get0. rewrite (get_none_notin RNum) by exact H. reflexivity. Qed.
+
+  Lemma vget_get0 (v : list (key * R)) k : vget RNum v k = get0 v k.
+  Proof. reflexivity. Qed.
+
+  Lemma comp_pick y F k : Den U I e0 y F ->
+    (if I k then vget RNum (uc y) k else vget RNum (dc y) k) = comp y k.
+  Proof.
+    intros [_ _ _ Hku Hkd _]. unfold comp. rewrite !vget_get0.
+    destruct (I k) eqn:E.
+    - rewrite (get0_notin (dc y) k); [symmetry; apply Rplus_0_r|]. intros Hin. apply Hkd in Hin. congruence.
+    - rewrite (get0_notin (uc y) k); [symmetry; apply Rplus_0_l|]. intros Hin. apply Hku in Hin. congruence.
+  Qed.
+
+  Theorem reporting_sound y F k lf xk :
+    attrs_ok -> Den U I e0 y F ->
+    assoc (s_leaves s) k = Some lf -> unode xk = LeafRef k -> 0 < U k ->
+    exists D, is_derive (fun t => F (upd e0 k t)) (e0 k) D /\
+              u_component RNum s y xk = Ok (U k * D) /\
+              sensitivity RNum s y xk = Ok D.
+  Proof.
+    intros Hat Hden Hlf Hx Hu.
+    destruct (Hat _ _ Hlf) as [Eu Ei].
+    destruct (den_der _ _ _ _ _ Hden k) as [D [H1 H2]].
+    exists D. split; [exact H1|].
+    pose proof (comp_pick y F k Hden) as Hp. rewrite <- Ei in Hp.
+    unfold u_component, sensitivity, leaf_of. rewrite Hx. cbn [T RNum] in *. rewrite Hlf. cbn [bind].
+    split.
+    - rewrite Hp, H2. reflexivity.
+    - rewrite Eu. cbn [ltb RNum zero of_Z]. unfold Rltb.
+      destruct (Rlt_dec (IZR 0) (U k)) as [_|n]; [|exfalso; apply n; exact Hu].
+      rewrite Hp, H2. cbn [div RNum]. unfold R_div.
+      destruct (Req_EM_T (U k) 0); [lra|]. apply f_equal. field. lra.
+  Qed.
+
+  (* an input the result does not carry: component exactly zero *)
+  Theorem absent_component_zero y k lf xk :
+    assoc (s_leaves s) k = Some lf -> unode xk = LeafRef k ->
+    ~ In k (keys (uc y)) -> ~ In k (keys (dc y)) ->
+    u_component RNum s y xk = Ok 0.
+  Proof.
+    intros Hlf Hx H1 H2. unfold u_component, leaf_of. rewrite Hx. cbn [T RNum] in *. rewrite Hlf. cbn [bind].
+    rewrite !vget_get0, !get0_notin by assumption. destruct (l_indep lf); reflexivity.
+  Qed.
+End Reporting.
